@@ -884,26 +884,56 @@ Proof.
   intros H R. unfold with_reg. rbind; [apply runs_has_reg|]. now rewrite H.
 Qed.
 
-(* OInsert i 1 / OPush 1 *)
-Lemma insert_runs idx ts tid ri T a b d te re G :
-  nth_error ts tid = Some (mk_slot true ri T) -> nth_error ts te = Some (mk_slot true re G) ->
-  runs (run_op fixed (OInsert idx 1)) (st5 ts (mk_hnd tid []) a b (Some (mk_hnd te [])) d) (0%N, None)
-       (st5 (ts ++ [mk_slot true 0 (relations_insert_green fixed T idx G)]) (mk_hnd (length ts) []) a b None d).
+(* OInsert i 1 / OPush 1 (in place, proposed_fixes/C11-10): the operand may be a node of any tree
+   (a copy of it is spliced in); the root register keeps its handle *)
+Lemma relations_insert_runs ts tid ri kd cs a b d te pe sl G idx :
+  nth_error ts tid = Some (mk_slot true ri (Node kd cs)) ->
+  nth_error ts te = Some sl -> get_path (s_tree sl) pe = Some G ->
+  exists ts' a' b' d',
+    runs (relations_insert fixed 0 idx 3) (st5 ts (mk_hnd tid []) a b (Some (mk_hnd te pe)) d) tt
+         (st5 ts' (mk_hnd tid []) a' b' None d') /\
+    nth_error ts' tid = Some (mk_slot true ri (relations_insert_green fixed (Node kd cs) idx G)).
 Proof.
-  intros HT HG. cbn [run_op]. unfold st5. eapply runs_with_reg_some; [reflexivity|].
-  rbind; [apply (relations_insert_root ts tid ri T a b d te re G idx HT HG)|]. rdone.
+  intros HT HE HG. set (T := Node kd cs) in *. pose proof (nth_error_Some_lt _ _ _ HT) as Hlt.
+  unfold relations_insert_green. cbn [children T]. pose proof (insert_plan_frame fixed cs idx G) as Hpl.
+  destruct (insert_plan fixed cs idx G) as [pos new] eqn:Epl. destruct Hpl as [Hpos _].
+  set (rs := [Some (mk_hnd tid []); a; b; Some (mk_hnd te pe); d]).
+  destruct (m_insert_fresh_spec new ts rs 0 tid ri T [] kd cs pos eq_refl HT eq_refl Hpos) as (ts' & F & R & L & T' & O & A & B).
+  exists ts', (option_map F a), (option_map F b), (option_map F d). split.
+  - unfold relations_insert, st5. fold rs.
+    rbind; [apply runs_get_reg; reflexivity|].
+    rbind; [eapply runs_node_of; [exact HT|reflexivity]|].
+    rbind; [unfold node_of_reg; rbind; [apply runs_get_reg; reflexivity|]; eapply runs_node_of; [exact HE|exact HG]|].
+    cbn [fx_in_place fixed s_tree children T]. rewrite Epl.
+    rbind; [exact R|]. unfold rs. cbn [map option_map].
+    rewrite (A (mk_hnd tid [])) by (auto using above_root).
+    eapply runs_eq; [apply runs_set_reg|reflexivity|]. reflexivity.
+  - exact T'.
 Qed.
-Lemma push_runs ts tid ri T a b d te re G :
-  nth_error ts tid = Some (mk_slot true ri T) -> nth_error ts te = Some (mk_slot true re G) ->
-  runs (run_op fixed (OPush 1)) (st5 ts (mk_hnd tid []) a b (Some (mk_hnd te [])) d) (0%N, None)
-       (st5 (ts ++ [mk_slot true 0 (relations_insert_green fixed T (count_if is_entry (children T)) G)])
-            (mk_hnd (length ts) []) a b None d).
+Lemma insert_runs idx ts tid ri kd cs a b d te pe sl G :
+  nth_error ts tid = Some (mk_slot true ri (Node kd cs)) -> nth_error ts te = Some sl -> get_path (s_tree sl) pe = Some G ->
+  exists ts' a' b' d',
+    runs (run_op fixed (OInsert idx 1)) (st5 ts (mk_hnd tid []) a b (Some (mk_hnd te pe)) d) (0%N, None)
+         (st5 ts' (mk_hnd tid []) a' b' None d') /\
+    nth_error ts' tid = Some (mk_slot true ri (relations_insert_green fixed (Node kd cs) idx G)).
 Proof.
-  intros HT HG. cbn [run_op]. unfold st5. eapply runs_with_reg_some; [reflexivity|].
+  intros HT HE HG. destruct (relations_insert_runs ts tid ri kd cs a b d te pe sl G idx HT HE HG) as (ts' & a' & b' & d' & R & T').
+  exists ts', a', b', d'. split; [|exact T'].
+  cbn [run_op]. unfold st5. eapply runs_with_reg_some; [reflexivity|]. rbind; [exact R|]. rdone.
+Qed.
+Lemma push_runs ts tid ri kd cs a b d te pe sl G :
+  nth_error ts tid = Some (mk_slot true ri (Node kd cs)) -> nth_error ts te = Some sl -> get_path (s_tree sl) pe = Some G ->
+  exists ts' a' b' d',
+    runs (run_op fixed (OPush 1)) (st5 ts (mk_hnd tid []) a b (Some (mk_hnd te pe)) d) (0%N, None)
+         (st5 ts' (mk_hnd tid []) a' b' None d') /\
+    nth_error ts' tid = Some (mk_slot true ri (relations_insert_green fixed (Node kd cs) (count_if is_entry cs) G)).
+Proof.
+  intros HT HE HG. destruct (relations_insert_runs ts tid ri kd cs a b d te pe sl G (count_if is_entry cs) HT HE HG) as (ts' & a' & b' & d' & R & T').
+  exists ts', a', b', d'. split; [|exact T'].
+  cbn [run_op]. unfold st5. eapply runs_with_reg_some; [reflexivity|].
   rbind; [|rdone]. unfold relations_push.
   rbind; [apply runs_get_reg; reflexivity|].
-  rbind; [eapply runs_children_of; [exact HT|reflexivity]|].
-  apply (relations_insert_root ts tid ri T a b d te re G _ HT HG).
+  rbind; [eapply runs_children_of; [exact HT|reflexivity]|]. exact R.
 Qed.
 
 (* ------------------------------------------------------------------ Relations::replace *)
@@ -1255,6 +1285,18 @@ Proof.
   - intros q g _ Hq Hg Ha. rewrite (nth_error_map_reg F _ _ _ Hq). rewrite A; auto using above_extend.
 Qed.
 
+(* an operation that is one splice of freshly built elements into the node itself *)
+Lemma insert_fresh_node_op (m : nat -> M unit) k cs idx new : idx <= length cs ->
+  (forall ts rs r tid ri T p, nth_error rs r = Some (Some (mk_hnd tid p)) ->
+     nth_error ts tid = Some (mk_slot true ri T) -> get_path T p = Some (Node k cs) ->
+     forall st', runs (m_insert_fresh r idx new) (mk_state ts rs) tt st' -> runs (m r) (mk_state ts rs) tt st') ->
+  node_op m (Node k cs) (Node k (insert_at idx new cs)).
+Proof.
+  intros Hidx Hm. apply node_op_from_F. intros ts rs r tid ri T p Hr HT HG.
+  destruct (m_insert_fresh_spec new ts rs r tid ri T p k cs idx Hr HT HG Hidx) as (ts' & F & R & L & T' & O & A & B).
+  exists ts', F. split; [now apply (Hm ts rs r tid ri T p Hr HT HG)|]. split; [exact T'|exact A].
+Qed.
+
 (* ------------------------------------------------------------------ Relation::set_archqual *)
 Lemma plain_inv r : plain r = true -> exists n q v, r = mk_relrec n q v None [].
 Proof.
@@ -1471,27 +1513,17 @@ Proof.
       exact R.
     + rewrite T'. f_equal. f_equal. eapply upd_path_ext; [exact HG|].
       rewrite crel_tree_shape. unfold pre. now rewrite <- app_assoc.
-  - (* insert " (op ver)" at the end, re-rooting through the parent *)
-    intros ts rs r tid ri T pp i Hr HT HG.
-    destruct (get_path_snoc_inv _ _ _ _ HG) as (kd & pre & post & HGp & <-).
+  - (* insert " (op ver)" after the qualifier, in place *)
     set (cs := children (crel_tree (mk_relrec n q None None []))).
-    set (g := Node RELATION (cs ++ [t_space; version_node vc ver])).
-    destruct (reroot_spec ts rs r tid ri T pp kd pre _ post g Hr HT HGp eq_refl)
-      as (ts' & rs' & R & L & T' & S & A).
-    exists ts', rs'. split; [|split; [exact L|split; [|split; [exact S|exact A]]]].
-    + cbn [relation_set_version]. rbind; [apply runs_get_reg; exact Hr|].
-      rbind; [eapply runs_node_of; [exact HT|exact HG]|].
-      assert (find_index (node_is VERSION) (children (crel_tree (mk_relrec n q None None []))) = None) as ->
-        by (destruct q; reflexivity).
-      assert (Eg : set_children (insert_at (version_pos fixed (children (crel_tree (mk_relrec n q None None []))))
-                                 [t_space; version_node vc ver] (children (crel_tree (mk_relrec n q None None []))))
-                                (crel_tree (mk_relrec n q None None [])) = g)
-        by (destruct q; reflexivity).
-      rewrite Eg. exact R.
-    + rewrite T'. f_equal. f_equal.
-      assert (Eg2 : crel_tree (mk_relrec n q (Some (vc, ver)) None []) = g)
-        by (unfold g, cs; destruct q; reflexivity).
-      rewrite Eg2. symmetry. apply (upd_path_snoc _ _ _ _ _ _ g HGp).
+    assert (Eo : crel_tree (mk_relrec n q None None []) = Node RELATION cs) by reflexivity.
+    assert (En : crel_tree (mk_relrec n q (Some (vc, ver)) None []) = Node RELATION (insert_at (version_pos fixed cs) [t_space; version_node vc ver] cs))
+      by (unfold cs; destruct q; reflexivity).
+    rewrite Eo, En. apply insert_fresh_node_op; [unfold cs; destruct q; cbn; lia|].
+    intros ts rs r tid ri T p Hr HT HG st' R.
+    cbn [relation_set_version]. rbind; [apply runs_get_reg; exact Hr|].
+    rbind; [eapply runs_node_of; [exact HT|exact HG]|]. cbn [children].
+    assert (find_index (node_is VERSION) cs = None) as -> by (unfold cs; destruct q; reflexivity).
+    cbn [fx_in_place fixed]. exact R.
 Qed.
 
 Lemma runs_bind_inv {A B} (m : M A) (f : A -> M B) st b st2 :
@@ -1840,6 +1872,57 @@ Proof.
     rdone.
 Qed.
 
+Lemma entry_push_plan_pos cs rg : fst (entry_push_plan cs rg) <= length cs.
+Proof.
+  unfold entry_push_plan. destruct (last_index is_relation cs) as [ci|] eqn:E; cbn [fst]; [|lia].
+  clear -E. revert ci E. induction cs as [|x r IH]; intros ci E; [discriminate|]. cbn [last_index] in E.
+  destruct (last_index is_relation r) as [j|]; [injection E as <-; specialize (IH j eq_refl); cbn [length]; lia|].
+  destruct (is_relation x); [injection E as <-; cbn; lia|discriminate].
+Qed.
+
+(* Entry::push through an entry handle into any ROOT, in place: the operand may be a node of any
+   tree (a copy is spliced in) *)
+Lemma epush_runs_gen k epre ke ecs epost G ts tid ri b c tr pr sl :
+  nth_error ts tid = Some (mk_slot true ri (Node k (epre ++ Node ke ecs :: epost))) ->
+  nth_error ts tr = Some sl -> get_path (s_tree sl) pr = Some G ->
+  exists ts' a' b' c' x,
+    runs (run_op fixed (OEPush 0 1))
+         (st5 ts (mk_hnd tid []) (Some (mk_hnd tid [length epre])) b c (Some (mk_hnd tr pr))) x
+         (st5 ts' (mk_hnd tid []) a' b' c' None) /\
+    nth_error ts' tid = Some (mk_slot true ri (Node k (epre ++ entry_push_green (Node ke ecs) G :: epost))).
+Proof.
+  intros HT HR HGr. set (E := Node ke ecs) in *. set (T := Node k (epre ++ E :: epost)) in *.
+  assert (HGe : get_path T [length epre] = Some E) by (cbn [get_path T children]; now rewrite nth_error_app_len).
+  pose proof (nth_error_Some_lt _ _ _ HT) as Hlt.
+  unfold entry_push_green. cbn [children E]. pose proof (entry_push_plan_pos ecs G) as Hpos.
+  destruct (entry_push_plan ecs G) as [pos new] eqn:Epl. cbn [fst] in Hpos.
+  set (rs := [Some (mk_hnd tid []); Some (mk_hnd tid [length epre]); b; c; Some (mk_hnd tr pr)]).
+  destruct (m_insert_fresh_spec new ts rs 1 tid ri T [length epre] ke ecs pos eq_refl HT HGe Hpos) as (ts' & F & R & L & T' & O & A & B).
+  assert (F0 : F (mk_hnd tid []) = mk_hnd tid []) by (apply A; [exact Hlt|apply above_root]).
+  assert (F1 : F (mk_hnd tid [length epre]) = mk_hnd tid [length epre]) by (apply A; [exact Hlt|apply above_self]).
+  assert (ET : upd_path T [length epre] (fun _ => Node ke (insert_at pos new ecs)) = Node k (epre ++ Node ke (insert_at pos new ecs) :: epost)).
+  { unfold T. cbn [upd_path]. now rewrite upd_nth_app_r. }
+  rewrite ET in T'.
+  exists ts', (Some (mk_hnd tid [length epre])), (option_map F b), (option_map F c). eexists. split.
+  - cbn [run_op]. change (rreg 1) with 4. change (ereg 0) with 1. unfold st5. fold rs.
+    eapply runs_with_reg_some; [reflexivity|].
+    rbind; [apply runs_has_reg|]. cbn [nth_error rs].
+    rbind.
+    { unfold entry_push. rbind; [apply runs_get_reg; reflexivity|].
+      rbind; [eapply runs_node_of; [exact HT|exact HGe]|].
+      rbind; [unfold node_of_reg; rbind; [apply runs_get_reg; reflexivity|]; eapply runs_node_of; [exact HR|exact HGr]|].
+      cbn [fx_in_place fixed children E]. rewrite Epl.
+      rbind; [exact R|]. apply runs_set_reg. }
+    unfold rs. cbn [map option_map set_reg_l]. rewrite F0, F1. unfold reg_text, node_of_reg.
+    rbind.
+    { rbind.
+      { rbind; [apply runs_get_reg; reflexivity|]. eapply runs_node_of; [exact T'|].
+        cbn [s_tree get_path children]. rewrite nth_error_app_len. reflexivity. }
+      rdone. }
+    rdone.
+  - exact T'.
+Qed.
+
 Lemma epush_runs fa e0 fb r ts tid ri b c tr rr :
   nth_error ts tid = Some (mk_slot true ri (cfield_tree (fa ++ e0 :: fb))) ->
   nth_error ts tr = Some (mk_slot true rr (crel_tree r)) ->
@@ -1850,38 +1933,16 @@ Lemma epush_runs fa e0 fb r ts tid ri b c tr rr :
     nth_error ts' tid = Some (mk_slot true ri (cfield_tree (fa ++ (e0 ++ [r]) :: fb))).
 Proof.
   intros HT HR. destruct (cfield_children_split fa e0 fb) as [Ecs Lpre].
-  set (T := cfield_tree (fa ++ e0 :: fb)) in *.
   set (pre := preE (map centry_tree fa)) in *. set (post := sepE (map centry_tree fb)) in *.
-  assert (HG : get_path T [] = Some (Node ROOT (pre ++ centry_tree e0 :: post))).
-  { cbn [get_path]. f_equal. unfold T at 1. unfold cfield_tree, relations_from_entries. f_equal. exact Ecs. }
-  pose proof (nth_error_Some_lt _ _ _ HT) as Hlt.
-  set (rs := [Some (mk_hnd tid []); Some (mk_hnd tid ([] ++ [length pre])); b; c; Some (mk_hnd tr [])]).
-  destruct (reroot_spec ts rs 1 tid ri T [] ROOT pre (centry_tree e0) post (centry_tree (e0 ++ [r]))
-              eq_refl HT HG eq_refl) as (ts' & rs' & R & L & T' & S & A).
-  destruct (list5 rs' L) as (x0 & x1 & x2 & x3 & x4 & ->).
-  pose proof (A 0 (mk_hnd tid []) ltac:(lia) eq_refl Hlt (above_root _ _ _)) as E0.
-  cbn [nth_error] in E0, S. inversion E0; subst x0. inversion S; subst x1.
-  exists ts', (Some (mk_hnd tid ([] ++ [length pre]))), x2, x3. eexists. split.
-  - cbn [run_op]. change (rreg 1) with 4. change (ereg 0) with 1. unfold st5.
-    eapply runs_with_reg_some; [reflexivity|].
-    rbind; [apply runs_has_reg|]. cbn [nth_error].
-    rbind.
-    { unfold entry_push. rbind; [apply runs_get_reg; reflexivity|].
-      rbind; [eapply runs_node_of; [exact HT|apply get_path_cfield_entry]|].
-      rbind; [unfold node_of_reg; rbind; [apply runs_get_reg; reflexivity|]; eapply runs_node_of; [exact HR|reflexivity]|].
-      cbn [s_tree]. rewrite entry_push_green_canon. cbn [fx_entry_push fixed].
-      rbind; [rdone|]. rewrite <- Lpre. fold pre.
-      rbind; [exact R|]. apply runs_set_reg. }
-    cbn [set_reg_l]. unfold reg_text, node_of_reg.
-    rbind.
-    { rbind.
-      { rbind; [apply runs_get_reg; reflexivity|]. eapply runs_node_of; [exact T'|].
-        cbn [app s_tree get_path upd_path children]. rewrite nth_error_app_len. reflexivity. }
-      rdone. }
-    rdone.
-  - rewrite T'. f_equal. f_equal. cbn [upd_path].
-    destruct (cfield_children_split fa (e0 ++ [r]) fb) as [Ecs2 _]. fold pre post in Ecs2.
-    unfold cfield_tree, relations_from_entries in *. cbn [children] in Ecs2. now rewrite Ecs2.
+  assert (ET : cfield_tree (fa ++ e0 :: fb) = Node ROOT (pre ++ centry_tree e0 :: post)).
+  { unfold cfield_tree, relations_from_entries in *. cbn [children] in Ecs. now rewrite Ecs. }
+  rewrite ET in HT. assert (Ece : exists ecs, centry_tree e0 = Node ENTRY ecs) by (eexists; reflexivity).
+  destruct Ece as (ecs & Ece). rewrite Ece in HT.
+  destruct (epush_runs_gen ROOT pre ENTRY ecs post (crel_tree r) ts tid ri b c tr [] _ HT HR eq_refl) as (ts' & a' & b' & c' & x & R & T').
+  exists ts', a', b', c', x. rewrite <- Lpre. split; [exact R|].
+  rewrite T', <- Ece, entry_push_green_canon. f_equal. f_equal.
+  destruct (cfield_children_split fa (e0 ++ [r]) fb) as [Ecs2 _]. fold pre post in Ecs2.
+  unfold cfield_tree, relations_from_entries in *. cbn [children] in Ecs2. now rewrite Ecs2.
 Qed.
 
 (* m_splice with nothing to delete and nothing to insert *)
